@@ -770,7 +770,7 @@ class C04(fw.Check):
     def _jobs(self) -> list:
         from props import pipegen
 
-        plan = {'subprocess': self.n(10, 120), 'fork': self.n(40, 1200), 'inprocess': self.n(40, 1200)}
+        plan = {'subprocess': self.n(8, 60), 'fork': self.n(36, 400), 'inprocess': self.n(36, 400)}
         jobs = []
         for iso, count in plan.items():
             asts = self._asts(count)
@@ -832,6 +832,7 @@ class C04(fw.Check):
         if not isinstance(m, list) or m[0] != 'ok':
             return None
         wf = m[1][1:3]
+        tail_clean = m[1][3][-1]
         ptags = m[2][1:]
         steps = []
         for st in m[3]:
@@ -839,7 +840,7 @@ class C04(fw.Check):
                 steps.append({'status': 'error', 'error': st[1]})
             else:
                 steps.append({'status': 'ok', 'ngens': st[1], 'obs': sorted(st[2], key=json.dumps)})
-        return {'wf': wf, 'ptags': ptags, 'steps': steps}
+        return {'wf': wf, 'ptags': ptags, 'steps': steps, 'perfmodel': m[4][1], 'tail_clean': tail_clean}
 
     PYFUNC_LIMITS = {'IndexError', 'AssertionError'}  # C02: forks at the head / Push-Pop order (not C04's subject)
 
@@ -857,12 +858,10 @@ class C04(fw.Check):
             if act['kind'] != 'train' and st['result']['status'] == 'ok':
                 holders = [e for e in st['events'] if e['ev'] == 'apply' and e.get('stateful') and e.get('origin')]
                 loaded = max(loaded, len(holders))
-        kinds = ''.join(a['kind'][0] for a in job['history'])
         self.case(key, f"{job['isolation']} {job['shape'] if len(job['shape']) < 40 else 'large'}", nontrivial=loaded >= 2,
                   sample={'ast': job['ast'], 'history': job['history'], 'isolation': job['isolation'],
                           'first_apply': impl_observations(next((s['events'] for a, s in zip(job['history'], steps)
                                                                  if a['kind'] != 'train'), []))[:6]})
-        self.histogram['history ' + kinds[:1] + f' len={len(kinds)}'] += 0  # (kept small: shapes dominate)
         for st in steps:
             r = st['result']
             self.extra.setdefault('action_outcomes', collections.Counter())[
@@ -877,6 +876,11 @@ class C04(fw.Check):
         # --- model vs implementation
         if model is None:
             return
+        self.extra.setdefault('perftrack_composition_vs_model', collections.Counter())[model['perfmodel']] += 1
+        if model['perfmodel'] == 'differ':
+            self.diverge('the composition of pipeline >> PerfTrackScore built by the real code differs from the one the model '
+                         'derives from the plain composition (refusal / occurrences behind Composition.persistent)', case,
+                         (ext.get('perf') or {}).get('persistent', (ext.get('perf') or {}).get('error')), 'Comp.perfOf')
         if ext and ext['plain'].get('persistent') is not None:
             mp = [t for t in model['ptags']]
             if mp != ext['plain']['persistent']:
@@ -923,7 +927,8 @@ class C04(fw.Check):
             if k in answers and model is None:
                 raise fw.MachineryError(f'model driver rejected the case: {answers[k][:200]}')
             if model is not None:
-                self.extra.setdefault('model_wf', collections.Counter())[json.dumps(model['wf'])] += 1
+                self.extra.setdefault('model_wf', collections.Counter())[
+                    f"wfPlain={model['wf'][0]} wfPerf={model['wf'][1]} tailClean={model['tail_clean']}"] += 1
             self._judge(job, res, model)
 
     def _exhaustive_jobs(self) -> list:
@@ -951,7 +956,7 @@ class C04(fw.Check):
         if not self.quick:
             jobs += self._exhaustive_jobs()
         self._process(jobs)
-        for k in ('action_outcomes', 'model_wf'):
+        for k in ('action_outcomes', 'model_wf', 'perftrack_composition_vs_model'):
             if k in self.extra:
                 self.extra[k] = dict(self.extra[k])
         # minimise one witness per root cause (the others carry the same signature and are folded by the framework)
